@@ -636,6 +636,71 @@ def gen_boxcar():
 GENERATORS["Boxcar.lean"] = gen_boxcar
 
 
+# ----------------------------------------------------------------------------------------
+# Utf32Str / Utf32String: how the four slice functions turn a RangeBounds into start..end (C17)
+
+def slice_expr(e):
+    """`start`, `start + 1`, `end as usize + 1`, `0`, `self.len()` ... as a Lean term over x (the bound) and n (the length);
+    None when the expression has any other shape"""
+    e = re.sub(r"\bas\s+(usize|u32|u64)\b", " ", e.strip().rstrip(","))
+    e = e.replace("self.len()", " n ")
+    e = re.sub(r"\b(start|end)\b", " x ", e)
+    toks = re.findall(r"[A-Za-z_][A-Za-z_0-9]*|\d+|[-+*()]", e)
+    if "".join(toks) != re.sub(r"\s+", "", e) or not toks:
+        return None
+    if any(re.match(r"[A-Za-z_]", t) and t not in ("x", "n") for t in toks):
+        return None
+    return " ".join(toks)
+
+
+def gen_utf32():
+    src = strip_comments(read("matcher/src/utf32_str.rs"))
+    rows = []
+    for m in re.finditer(r"pub fn (slice(?:_u32)?)\(\s*(&?self)\s*,\s*range: impl RangeBounds<(\w+)>\s*\)\s*->\s*Utf32Str(?:<'\w+>)?\s*\{", src):
+        i = m.end()
+        depth, j = 1, i
+        while depth and j < len(src):
+            depth += {"{": 1, "}": -1}.get(src[j], 0)
+            j += 1
+        body = src[i:j]
+        recv = "Utf32String" if m.group(2) == "&self" else "Utf32Str"
+        ok = True
+        vals = {}
+        for which in ("start", "end"):
+            mm = re.search(r"let %s = match range\.%s_bound\(\) \{(.*?)\};" % (which, which), body, re.S)
+            arms = dict(re.findall(r"Bound::(Included|Excluded|Unbounded)(?:\(&\w+\))?\s*=>\s*([^,\n]+),", mm.group(1))) if mm else {}
+            for k in ("Included", "Excluded", "Unbounded"):
+                t = slice_expr(arms[k]) if k in arms else None
+                if t is None:
+                    ok = False
+                    t = "0"
+                vals[(which, k)] = t
+        # the result: the same variant over [start..end] of the content
+        tail = body[body.rfind("match self"):] if "match self" in body else ""
+        tail = re.sub(r"\s+as\s+usize\b", "", tail)
+        arms = re.findall(r"(Utf32Str(?:ing)?)::(Ascii|Unicode)\((\w+)\)\s*=>\s*\{?\s*Utf32Str::(Ascii|Unicode)\(&(\w+)(\.as_bytes\(\))?\[start\.\.end\]\)", tail)
+        if sorted((a[1], a[3]) for a in arms) != [("Ascii", "Ascii"), ("Unicode", "Unicode")] or any(a[2] != a[4] or a[0] != recv for a in arms):
+            ok = False
+        rows.append((recv, m.group(1), ok, vals))
+    out = ["/- GENERATED by translator/translate.py from matcher/src/utf32_str.rs — do not edit -/", "namespace NucleoVerif.Gen", "",
+           "/-- how one of the slice functions computes `start..end` from the two bounds of a `RangeBounds` (x: the bound's value, n: the string's length); "
+           "`shapeOk`: every arm was an arithmetic expression the translator understands, and the result is the same variant over `content[start..end]` -/",
+           "structure SliceBounds where",
+           "  recv : String\n  fn : String\n  shapeOk : Bool\n  startIncl : Nat → Nat\n  startExcl : Nat → Nat\n  startUnb : Nat → Nat\n  endIncl : Nat → Nat → Nat\n  endExcl : Nat → Nat → Nat\n  endUnb : Nat → Nat",
+           "", "def sliceBoundsAll : List SliceBounds := ["]
+    lines = []
+    for recv, fn, ok, v in rows:
+        lines.append(f'  {{ recv := "{recv}", fn := "{fn}", shapeOk := {"true" if ok else "false"},\n'
+                     f'    startIncl := fun x => {v[("start", "Included")]}, startExcl := fun x => {v[("start", "Excluded")]}, startUnb := fun n => {v[("start", "Unbounded")]},\n'
+                     f'    endIncl := fun x n => {v[("end", "Included")]}, endExcl := fun x n => {v[("end", "Excluded")]}, endUnb := fun n => {v[("end", "Unbounded")]} }}')
+    out.append(",\n".join(lines))
+    out += ["]", "", "end NucleoVerif.Gen"]
+    return "\n".join(out) + "\n"
+
+
+GENERATORS["Utf32.lean"] = gen_utf32
+
+
 def main():
     changed = []
     for name, fn in GENERATORS.items():
